@@ -55,7 +55,7 @@ func scanBatch[N aggregation.Number](k *kind[N], s *vectorized.BatchSchema, c *C
 	b := vectorized.NewRecordBatch(s, len(idx))
 	for _, i := range idx {
 		b.Columns[0].(*vectorized.TypedColumn[int64]).Append(int64(shard))
-		b.Columns[1].(*vectorized.TypedColumn[string]).Append(groupNames[c.Rows[i].G])
+		b.Columns[1].(*vectorized.TypedColumn[string]).Append(c.gname(c.Rows[i].G))
 		appendVal(b.Columns[2], vals[i])
 	}
 	b.Len = len(idx)
@@ -142,7 +142,7 @@ func runVec[N aggregation.Number](k *kind[N], c *Case, st *stats) []viol {
 	sh := shardRows(c)
 	groupOf := func(i int) string {
 		if c.GroupBy {
-			return groupNames[c.Rows[i].G]
+			return c.gname(c.Rows[i].G)
 		}
 		return ""
 	}
@@ -188,7 +188,7 @@ func runVec[N aggregation.Number](k *kind[N], c *Case, st *stats) []viol {
 	}
 	for i := range vals {
 		all.Columns[0].(*vectorized.TypedColumn[int64]).Append(int64(rowShard[i]))
-		all.Columns[1].(*vectorized.TypedColumn[string]).Append(groupNames[c.Rows[i].G])
+		all.Columns[1].(*vectorized.TypedColumn[string]).Append(c.gname(c.Rows[i].G))
 		appendVal(all.Columns[2], vals[i])
 	}
 	all.Len = len(vals)
